@@ -1,7 +1,7 @@
 (* Correspondence checker for the multiplexed operators: the slot-level machine bm (den_pipe p)
    is run on the trace the implementation was run on; outputs are compared step by step. *)
 From Coq Require Import List ZArith Bool.
-From RxVerif Require Import Base.Corr Mux.Val Mux.Sim Mux.SimExt Mux.Ops Mux.Syntax Mux.Plain Mux.Boundaries.
+From RxVerif Require Import Base.Corr Mux.Val Mux.Sim Mux.SimExt Mux.Ops Mux.Syntax Mux.Plain Mux.PlainTimed Mux.Boundaries.
 Import ListNotations.
 
 Inductive oev :=
@@ -29,6 +29,8 @@ Inductive muxcase :=
 | MC (p : list op) (t : list iev) (out : list (list oev))
 (* the same pipeline on plain observables: (items, what the plain run emitted before completing) *)
 | MCPlain (p : list op) (runs : list (list val * list val))
+(* the timed plain model: (items, what the plain run emitted while each item was pushed, at completion) *)
+| MCPlainT (p : list op) (runs : list (list val * list (list val) * list val))
 (* every inner boundary: what the recording taps saw, in tap order (Boundaries.bnd_pipe);
    mask drops the boundaries inside the expansion of a derived operator (mean = scan ; map), which
    the real code, having one operator there, cannot tap *)
@@ -39,6 +41,11 @@ Definition plain_agrees (p : list op) (r : list val * list val) : bool :=
   match plain_pipe p (fst r) with
   | Some ys => list_eqb val_same ys (snd r)
   | None => true          (* outside the modelled plain fragment, or the model says on_error *)
+  end.
+Definition plain_timed_agrees (p : list op) (r : list val * list (list val) * list val) : bool :=
+  match ptimed_pipe p (fst (fst r)) with
+  | Some (os, fin) => list_eqb (list_eqb val_same) os (snd (fst r)) && list_eqb val_same fin (snd r)
+  | None => true          (* outside the timed plain fragment, or the model says on_error *)
   end.
 Fixpoint keep {A} (mask : list bool) (l : list A) : list A :=
   match mask, l with
@@ -52,6 +59,7 @@ Fixpoint mux_check (c : muxcase) : bool :=
   | MCSkip => true
   | MC p t out => list_eqb (list_eqb oev_same) (mux_model p t) out
   | MCPlain p runs => forallb (plain_agrees p) runs
+  | MCPlainT p runs => forallb (plain_timed_agrees p) runs
   | MCBnd p t mask taps => list_eqb (list_eqb oev_same) (keep mask (map (map norm) (bnd_pipe p t))) taps
   | MCAnd a b => mux_check a && mux_check b
   end.
